@@ -287,33 +287,7 @@ Proof.
   destruct (exec_stmts brs ev inner st) as [y|f|k]; cbn [rbind rmap]; try reflexivity. rewrite pop_enter. reflexivity.
 Qed.
 
-(* nested Where guards around flat statements *)
-Lemma guards_block_exec (brs : list branch) (ev : event) (iv : string) (ar : bool) (t : string) (v : value) (inner : stmts) (ps : list pred) :
-  flat_stmts inner = true -> forall s, lookup iv s = Some (t, v) -> nstuck (passes ev v ps) ->
-  exec_stmts brs ev (guards_block (map (tpred iv ar) ps) inner) s =
-  match passes ev v ps with
-  | ROk true => exec_stmts brs ev inner s
-  | ROk false => ROk s
-  | RFault f => RFault f
-  | RStuck k => RStuck k
-  end.
-Proof.
-  intro Hf. induction ps as [|p r IH]; intros s Hl Hn; cbn [map guards_block passes] in *; [reflexivity|].
-  rewrite exec_one, exec_if. rewrite dpred_dpredv in *.
-  pose proof (nstuck_bind_l _ _ (nstuck_bind_l _ _ Hn)) as Hv.
-  rewrite (eval_tpred ev s iv ar t v p Hl Hv).
-  destruct (dpredv ev v p) as [w|f|k]; cbn [rbind] in *; [|reflexivity|destruct Hv].
-  destruct (truth w) as [b|f|k]; cbn [rbind] in *; [|reflexivity|destruct Hn].
-  destruct b; [|reflexivity].
-  assert (Hfg : flat_stmts (guards_block (map (tpred iv ar) r) inner) = true).
-  { clear - Hf. induction r as [|q r IHr]; cbn [map guards_block]; [exact Hf|]. cbn. rewrite IHr. reflexivity. }
-  rewrite (flat_block brs ev _ s Hfg). apply IH; assumption.
-Qed.
-
 (* ---- and / or guards ---- *)
-Definition gstate (g : guard) (n : nat) (b : bool) (s : state) : state :=
-  match g with GNest _ => s | GBool _ _ _ => upd (bo_name n) (VBool b) s end.
-
 Lemma conv_bool_truth (w : value) (b : bool) : truth w = ROk b -> conv "bool" w = VBool b.
 Proof.
   destruct w; cbn; intro H; try discriminate; inversion H; subst; try reflexivity.
@@ -380,67 +354,289 @@ Proof.
     apply lookup_fget. rewrite <- Eb'. exact G.
 Qed.
 
-Lemma gstmts_exec (brs : list branch) (ev : event) (iv : string) (ar : bool) (t : string) (v : value) (inner : stmts) (g : guard) (n : nat) :
-  flat_stmts inner = true -> forall (s : state),
-  lookup iv s = Some (t, v) -> String.eqb iv (bo_name n) = false ->
-  match g with GBool _ _ _ => exists old, fget (bo_name n) s = Some ("bool", old) | GNest _ => True end ->
-  nstuck (gpasses ev v g) ->
-  exec_stmts brs ev (gstmts iv ar g n inner) s =
-  match gpasses ev v g with
-  | ROk true => exec_stmts brs ev inner (gstate g n true s)
-  | ROk false => ROk (gstate g n false s)
-  | RFault f => RFault f
-  | RStuck k => RStuck k
-  end.
+(* ---- the state in which the consumer of an element runs, and the loop block ---- *)
+Definition dframe (ds : list decl) : frame := map (fun d => (d_name d, (d_type d, default_value (d_type d)))) ds.
+Definition init_free (ds : list decl) : Prop := Forall (fun d => d_init d = None) ds.
+
+Lemma run_decls_free (ev : event) (ds : list decl) : init_free ds -> forall (F : frame) (R : list frame) (ms : frame) (rw : list (list value)),
+  run_decls ev ds {| frames := F :: R; members := ms; rows := rw |} = ROk {| frames := (F ++ dframe ds) :: R; members := ms; rows := rw |}.
 Proof.
-  intros Hf s Hl Hne Hbo Hn. destruct g as [ps|is_and p ps]; cbn [gstmts gpasses gstate] in *.
-  - apply (guards_block_exec brs ev iv ar t v inner ps Hf s Hl Hn).
-  - destruct Hbo as (old & Hb). unfold bo_lower, bo_first. cbn [snoc_stmts app_stmts].
-    rewrite exec_stmts_cons.
-    rewrite (set_bool_pred brs ev iv ar t v _ p s old Hl Hb (nstuck_bind_l _ _ Hn)).
-    destruct (dpred ev v p) as [b|f|k]; cbn [rbind] in *; try reflexivity.
-    rewrite (bo_tail_exec brs ev iv ar t v _ is_and _ s old ps Hl Hne Hb b Hn).
-    destruct (bo_rest ev v is_and b ps) as [b'|f|k]; try reflexivity.
-    rewrite exec_one, exec_if, eval_var.
-    destruct (assign_upd (bo_name n) (VBool b') s _ _ Hb) as (_ & _ & G & _ & _ & _).
-    rewrite (lookup_fget _ _ _ G). cbn [rbind truth].
-    destruct b'; [|reflexivity]. apply (flat_block brs ev inner _ Hf).
+  induction 1 as [|d r Hd Hr IH]; intros F R ms rw; cbn [run_decls dframe map].
+  - rewrite app_nil_r. reflexivity.
+  - rewrite Hd. unfold declare. cbn [frames members rows]. rewrite IH. rewrite <- app_assoc. reflexivity.
 Qed.
 
-(* one iteration of a loop: the loop block's frame holds the loop variable and, for an and/or guard, its flag *)
-Definition lframe (g : guard) (n : nat) (iv : string) (v : value) (b : bool) : frame :=
-  (iv, ("auto", v)) :: match g with GNest _ => [] | GBool _ _ _ => [(bo_name n, ("bool", VBool b))] end.
+(* T: the frame of the consumer's own declarations (the conditionals of a body) *)
+Definition istate (g : guard) (n : nat) (iv : string) (v : value) (T : frame) (st : state) : state :=
+  match g with
+  | GNone => enter ((iv, ("auto", v)) :: T) st
+  | GOne _ => enter T (enter [(iv, ("auto", v))] st)
+  | GBool _ _ _ => enter T (enter [(iv, ("auto", v)); (bo_name n, ("bool", VBool true))] st)
+  end.
+Definition ipop (g : guard) (s : state) : state := match g with GNone => pop_frame s | _ => pop_frame (pop_frame s) end.
 
-Lemma loop_block_exec (brs : list branch) (ev : event) (iv : string) (ar : bool) (g : guard) (n : nat) (inner : stmts) (v : value) (st : state) :
-  flat_stmts inner = true -> String.eqb iv (bo_name n) = false -> String.eqb (bo_name n) iv = false ->
+Lemma ipop_istate (g : guard) (n : nat) (iv : string) (v : value) (T : frame) (st : state) : ipop g (istate g n iv v T st) = st.
+Proof. destruct g; cbn [ipop istate]; rewrite ?pop_enter; reflexivity. Qed.
+
+Lemma istate_fget_iv (g : guard) (n : nat) (iv : string) (v : value) (T : frame) (st : state) :
+  frame_get iv T = None -> fget iv (istate g n iv v T st) = Some ("auto", v).
+Proof.
+  intro H. unfold fget, istate. destruct g; cbn [enter frames frames_get frame_get]; rewrite ?H, String.eqb_refl; reflexivity.
+Qed.
+Lemma istate_iv (g : guard) (n : nat) (iv : string) (v : value) (T : frame) (st : state) :
+  frame_get iv T = None -> lookup iv (istate g n iv v T st) = Some ("auto", v).
+Proof. intro H. apply lookup_fget, istate_fget_iv, H. Qed.
+Lemma istate_fget_T (g : guard) (n : nat) (iv : string) (v : value) (T : frame) (st : state) (r : string) (tv : string * value) :
+  String.eqb r iv = false -> frame_get r T = Some tv -> fget r (istate g n iv v T st) = Some tv.
+Proof.
+  intros Hne H. unfold fget, istate. destruct g; cbn [enter frames frames_get frame_get]; rewrite ?Hne, H; reflexivity.
+Qed.
+Lemma istate_fget_other (g : guard) (n : nat) (iv : string) (v : value) (T : frame) (st : state) (x : string) :
+  String.eqb x iv = false -> String.eqb x (bo_name n) = false -> frame_get x T = None ->
+  fget x (istate g n iv v T st) = fget x st.
+Proof.
+  intros H1 H2 H3. unfold fget, istate. destruct g; cbn [enter frames frames_get frame_get]; rewrite ?H1, ?H2, ?H3; reflexivity.
+Qed.
+Lemma upd_istate_other (g : guard) (n : nat) (iv : string) (v : value) (T : frame) (st : state) (x : string) (a : value) (t : string) (old : value) :
+  String.eqb x iv = false -> String.eqb x (bo_name n) = false -> frame_get x T = None -> fget x st = Some (t, old) ->
+  upd x a (istate g n iv v T st) = istate g n iv v T (upd x a st).
+Proof.
+  intros H1 H2 H3 Hg. destruct g; cbn [istate].
+  - apply (upd_enter x a _ st t old); [cbn [frame_get]; rewrite H1; exact H3|exact Hg].
+  - rewrite (upd_enter x a T _ t old H3); [|rewrite fget_enter; [exact Hg|cbn [frame_get]; rewrite H1; reflexivity]].
+    rewrite (upd_enter x a _ st t old); [reflexivity|cbn [frame_get]; rewrite H1; reflexivity|exact Hg].
+  - rewrite (upd_enter x a T _ t old H3); [|rewrite fget_enter; [exact Hg|cbn [frame_get]; rewrite H1, H2; reflexivity]].
+    rewrite (upd_enter x a _ st t old); [reflexivity|cbn [frame_get]; rewrite H1, H2; reflexivity|exact Hg].
+Qed.
+
+(* assignment to a name of T *)
+Definition fset (r : string) (x : value) (T : frame) : frame := match frame_set r x T with Some T' => T' | None => T end.
+Lemma fset_spec (r : string) (x : value) (T : frame) (t : string) (old : value) :
+  frame_get r T = Some (t, old) ->
+  frame_set r x T = Some (fset r x T) /\ frame_get r (fset r x T) = Some (t, x) /\
+  (forall y, String.eqb y r = false -> frame_get y (fset r x T) = frame_get y T).
+Proof.
+  intro H. unfold fset. destruct (frame_set_spec r x T t old H) as (T' & Hs & Hg & Ho). rewrite Hs. auto.
+Qed.
+Lemma fset_none (r : string) (x : value) (T : frame) (y : string) : frame_get y T = None -> frame_get y (fset r x T) = None.
+Proof.
+  intro H. unfold fset. destruct (frame_get r T) as [[t old]|] eqn:E.
+  - destruct (frame_set_spec r x T t old E) as (T' & Hs & Hg & Ho). rewrite Hs.
+    destruct (String.eqb y r) eqn:Eq; [apply String.eqb_eq in Eq; subst y; rewrite H in E; discriminate|]. rewrite (Ho y Eq). exact H.
+  - rewrite (frame_set_None r x T E). exact H.
+Qed.
+Lemma upd_istate_T (g : guard) (n : nat) (iv : string) (v : value) (T : frame) (st : state) (r : string) (x : value) (t : string) (old : value) :
+  String.eqb r iv = false -> frame_get r T = Some (t, old) ->
+  upd r x (istate g n iv v T st) = istate g n iv v (fset r x T) st.
+Proof.
+  intros Hne H. destruct (fset_spec r x T t old H) as (Hs & _). unfold upd, istate.
+  destruct g; cbn [enter frames members rows frames_set frame_set]; rewrite ?Hne, Hs; reflexivity.
+Qed.
+
+Lemma loop_block_exec (brs : list branch) (ev : event) (iv : string) (ar : bool) (g : guard) (n : nat) (ds : list decl) (inner : stmts) (v : value) (st : state) :
+  init_free ds -> String.eqb iv (bo_name n) = false -> String.eqb (bo_name n) iv = false ->
   nstuck (gpasses ev v g) ->
-  exec_block brs ev (loop_block iv ar g n inner) [(iv, ("auto", v))] st =
+  exec_block brs ev (loop_block iv ar g n ds inner) [(iv, ("auto", v))] st =
   match gpasses ev v g with
-  | ROk true => rbind (exec_stmts brs ev inner (enter (lframe g n iv v true) st)) (fun s2 => ROk (pop_frame s2))
+  | ROk true => rbind (exec_stmts brs ev inner (istate g n iv v (dframe ds) st)) (fun s2 => ROk (ipop g s2))
   | ROk false => ROk st
   | RFault f => RFault f
   | RStuck k => RStuck k
   end.
 Proof.
-  intros Hf Hne1 Hne2 Hn. unfold loop_block. rewrite exec_block_eq.
-  destruct g as [ps|is_and p ps]; cbn [gdecls run_decls rbind lframe].
-  - assert (Hl : lookup iv (enter [(iv, ("auto", v))] st) = Some ("auto", v)).
-    { unfold lookup, enter. cbn. rewrite String.eqb_refl. reflexivity. }
-    rewrite (gstmts_exec brs ev iv ar "auto" v inner (GNest ps) n Hf _ Hl Hne1 I Hn). cbn [gstate].
-    destruct (gpasses ev v (GNest ps)) as [[|]|f|k]; cbn [rbind]; try reflexivity. rewrite pop_enter. reflexivity.
-  - cbn [bo_decl d_init d_name d_type]. unfold declare, enter. cbn [frames members rows app default_value is_vector_type prefix].
-    change (default_value "bool") with VUninit. cbn [rbind].
-    match goal with |- context [exec_stmts _ _ (gstmts _ _ _ _ _) ?S] => set (s0 := S) end.
+  intros Hd Hne1 Hne2 Hn. unfold loop_block. destruct g as [|p|is_and p ps]; cbn [gpasses istate ipop] in *.
+  - rewrite exec_block_eq. unfold enter at 1. rewrite (run_decls_free ev ds Hd). cbn [rbind]. reflexivity.
+  - rewrite exec_block_eq. cbn [run_decls rbind]. rewrite exec_one, exec_if.
+    set (s0 := enter [(iv, ("auto", v))] st).
+    assert (Hl : lookup iv s0 = Some ("auto", v)).
+    { unfold lookup, s0, enter. cbn [frames frames_get frame_get]. rewrite String.eqb_refl. reflexivity. }
+    rewrite dpred_dpredv in *. rewrite (eval_tpred ev s0 iv ar "auto" v p Hl (nstuck_bind_l _ _ Hn)).
+    destruct (dpredv ev v p) as [w|f|k]; cbn [rbind] in *; try reflexivity.
+    destruct (truth w) as [b|f|k]; cbn [rbind] in *; try reflexivity.
+    destruct b.
+    + rewrite exec_block_eq. unfold enter at 1. rewrite (run_decls_free ev ds Hd). cbn [rbind app].
+      change {| frames := dframe ds :: frames s0; members := members s0; rows := rows s0 |} with (enter (dframe ds) s0).
+      destruct (exec_stmts brs ev inner (enter (dframe ds) s0)); reflexivity.
+    + cbn [rbind]. unfold s0. rewrite pop_enter. reflexivity.
+  - rewrite exec_block_eq. cbn [run_decls bo_decl d_init d_name d_type rbind]. unfold declare, enter at 1. cbn [frames members rows app].
+    change (default_value "bool") with VUninit.
+    match goal with |- context [exec_stmts _ _ _ ?S] => set (s0 := S) end.
     assert (Hl : lookup iv s0 = Some ("auto", v)).
     { unfold lookup, s0. cbn [frames frames_get frame_get]. rewrite String.eqb_refl. reflexivity. }
     assert (Hb : fget (bo_name n) s0 = Some ("bool", VUninit)).
     { unfold fget, s0. cbn [frames frames_get frame_get]. rewrite Hne2, String.eqb_refl. reflexivity. }
-    rewrite (gstmts_exec brs ev iv ar "auto" v inner (GBool is_and p ps) n Hf s0 Hl Hne1 (ex_intro _ _ Hb) Hn). cbn [gstate].
     assert (Eu : forall b, upd (bo_name n) (VBool b) s0 = enter [(iv, ("auto", v)); (bo_name n, ("bool", VBool b))] st).
     { intro b. unfold upd, s0, enter. cbn [frames members rows frames_set frame_set]. rewrite Hne2, String.eqb_refl. reflexivity. }
-    destruct (gpasses ev v (GBool is_and p ps)) as [[|]|f|k]; cbn [rbind]; try reflexivity.
-    + rewrite Eu. reflexivity.
-    + rewrite Eu, pop_enter. reflexivity.
+    unfold bo_lower, bo_first. cbn [snoc_stmts app_stmts]. rewrite exec_stmts_cons.
+    rewrite (set_bool_pred brs ev iv ar "auto" v _ p s0 VUninit Hl Hb (nstuck_bind_l _ _ Hn)).
+    destruct (dpred ev v p) as [b|f|k]; cbn [rbind] in *; try reflexivity.
+    rewrite (bo_tail_exec brs ev iv ar "auto" v _ is_and _ s0 VUninit ps Hl Hne1 Hb b Hn).
+    destruct (bo_rest ev v is_and b ps) as [b'|f|k]; try reflexivity.
+    rewrite exec_one, exec_if, eval_var. rewrite Eu.
+    assert (Hlb : lookup (bo_name n) (enter [(iv, ("auto", v)); (bo_name n, ("bool", VBool b'))] st) = Some ("bool", VBool b')).
+    { unfold lookup, enter. cbn [frames frames_get frame_get]. rewrite Hne2, String.eqb_refl. reflexivity. }
+    rewrite Hlb. cbn [rbind truth].
+    destruct b'.
+    + rewrite exec_block_eq. unfold enter at 1. rewrite (run_decls_free ev ds Hd). cbn [rbind app].
+      match goal with |- context [exec_stmts brs ev inner ?S] => change S with (enter (dframe ds) (enter [(iv, ("auto", v)); (bo_name n, ("bool", VBool true))] st)) end.
+      destruct (exec_stmts brs ev inner _); reflexivity.
+    + cbn [rbind]. rewrite pop_enter. reflexivity.
+Qed.
+
+(* ---- bodies with conditionals ---- *)
+Lemma conv_double_idem (x : value) : conv "double" (conv "double" x) = conv "double" x.
+Proof. destruct x; reflexivity. Qed.
+
+Fixpoint tsets (m : nat) (rs : list value) (T : frame) : frame :=
+  match rs with [] => T | r :: rest => tsets (S m) rest (fset (if_name m) r T) end.
+
+Lemma if_name_inj (i j : nat) : if_name i = if_name j -> i = j.
+Proof. unfold if_name. intro H. apply (nm_inj "if_else_result" "if_else_result" _ _ eq_refl eq_refl) in H. lia. Qed.
+
+Lemma tsets_other (rs : list value) : forall m T y,
+  (forall j, String.eqb y (if_name j) = false) -> frame_get y (tsets m rs T) = frame_get y T.
+Proof.
+  induction rs as [|r rest IH]; intros m T y H; cbn [tsets]; [reflexivity|].
+  rewrite IH; [|exact H]. unfold fset. destruct (frame_get (if_name m) T) as [[t old]|] eqn:E.
+  - destruct (frame_set_spec (if_name m) r T t old E) as (T' & Hs & _ & Ho). rewrite Hs. apply Ho, H.
+  - rewrite (frame_set_None _ r T E). reflexivity.
+Qed.
+Lemma tsets_before (rs : list value) : forall m T i, i < m -> frame_get (if_name i) (tsets m rs T) = frame_get (if_name i) T.
+Proof.
+  induction rs as [|r rest IH]; intros m T i Hi; cbn [tsets]; [reflexivity|].
+  rewrite IH; [|lia]. unfold fset. destruct (frame_get (if_name m) T) as [[t old]|] eqn:E.
+  - destruct (frame_set_spec (if_name m) r T t old E) as (T' & Hs & _ & Ho). rewrite Hs. apply Ho.
+    destruct (String.eqb (if_name i) (if_name m)) eqn:Eq; [|reflexivity]. apply String.eqb_eq, if_name_inj in Eq. lia.
+  - rewrite (frame_set_None _ r T E). reflexivity.
+Qed.
+Lemma tsets_get (rs : list value) : forall m T k,
+  (forall j, j < List.length rs -> exists old, frame_get (if_name (m + j)) T = Some ("double", old)) ->
+  k < List.length rs -> frame_get (if_name (m + k)) (tsets m rs T) = Some ("double", nth k rs VUninit).
+Proof.
+  induction rs as [|r rest IH]; intros m T k H Hk; cbn [List.length] in *; [lia|]. cbn [tsets].
+  destruct (H 0 ltac:(lia)) as (old & H0). rewrite Nat.add_0_r in H0.
+  destruct (fset_spec (if_name m) r T "double" old H0) as (_ & Hg & Ho).
+  destruct k as [|k]; cbn [nth].
+  - rewrite Nat.add_0_r. rewrite tsets_before; [exact Hg|lia].
+  - replace (m + S k) with (S m + k) by lia. apply IH; [|lia].
+    intros j Hj. destruct (H (S j) ltac:(lia)) as (o & Hjj). exists o. replace (S m + j) with (m + S j) by lia.
+    rewrite Ho; [exact Hjj|]. destruct (String.eqb (if_name (m + S j)) (if_name m)) eqn:Eq; [|reflexivity].
+    apply String.eqb_eq, if_name_inj in Eq. lia.
+Qed.
+Lemma tsets_app (l1 l2 : list value) : forall m T, tsets m (l1 ++ l2) T = tsets (m + List.length l1) l2 (tsets m l1 T).
+Proof.
+  induction l1 as [|r rest IH]; intros m T; cbn [app tsets List.length]; [rewrite Nat.add_0_r; reflexivity|].
+  rewrite IH. replace (S m + List.length rest) with (m + S (List.length rest)) by lia. reflexivity.
+Qed.
+Lemma tsets_keeps (rs : list value) : forall m T y (t : string),
+  (exists old, frame_get y T = Some (t, old)) -> exists old, frame_get y (tsets m rs T) = Some (t, old).
+Proof.
+  induction rs as [|r rest IH]; intros m T y t (old & H); cbn [tsets]; [eauto|].
+  apply IH. unfold fset. destruct (frame_get (if_name m) T) as [[t0 o0]|] eqn:E.
+  - destruct (frame_set_spec (if_name m) r T t0 o0 E) as (T' & Hs & Hg & Ho). rewrite Hs.
+    destruct (String.eqb y (if_name m)) eqn:Eq.
+    + apply String.eqb_eq in Eq. subst y. rewrite H in E. inversion E; subst. eauto.
+    + rewrite (Ho y Eq). eauto.
+  - rewrite (frame_set_None _ r T E). eauto.
+Qed.
+
+(* the if/else statements of a body: every conditional's variable receives the taken arm's value *)
+Lemma bpre_exec (brs : list branch) (ev : event) (g : guard) (n : nat) (iv : string) (ar : bool) (v : value) (st : state) (e : bexp) :
+  (forall j, String.eqb (if_name j) iv = false) ->
+  forall m T, frame_get iv T = None ->
+  (forall k, k < nifs e -> exists old, frame_get (if_name (m + k)) T = Some ("double", old)) ->
+  match dconds ev v e with
+  | ROk rs => exec_stmts brs ev (bpre iv ar e m) (istate g n iv v T st) = ROk (istate g n iv v (tsets m rs T) st) /\
+              List.length rs = nifs e /\ Forall (fun r => r <> VUninit) rs
+  | RFault f => exec_stmts brs ev (bpre iv ar e m) (istate g n iv v T st) = RFault f
+  | RStuck _ => True
+  end.
+Proof.
+  intro Hifiv. induction e as [a|c a b|op x IHx y IHy]; intros m T Hiv Hin; cbn [dconds bpre nifs] in *.
+  - repeat split; auto.
+  - destruct (Hin 0 ltac:(lia)) as (old & Hr). rewrite Nat.add_0_r in Hr.
+    set (S0 := istate g n iv v T st).
+    assert (Hl : lookup iv S0 = Some ("auto", v)) by (apply istate_iv, Hiv).
+    assert (Hfr : fget (if_name m) S0 = Some ("double", old)) by (apply istate_fget_T; [apply Hifiv|exact Hr]).
+    unfold dcond. rewrite dpred_dpredv.
+    destruct (dpredv ev v c) as [w|f|k] eqn:Ew; cbn [rbind]; [| |exact I].
+    + rewrite exec_one, exec_if. rewrite (eval_tpred ev S0 iv ar "auto" v c Hl); [|rewrite Ew; exact I]. rewrite Ew. cbn [rbind].
+      destruct (truth w) as [t|f|k]; cbn [rbind]; [|reflexivity|exact I].
+      assert (Arm : forall (z : pa),
+                match dpa ev v z with
+                | ROk x => exec_block brs ev (Blk [] (one_stmt (arm_set (if_name m) iv ar z))) [] S0 = ROk (istate g n iv v (fset (if_name m) (conv "double" x) T) st)
+                | RFault f => exec_block brs ev (Blk [] (one_stmt (arm_set (if_name m) iv ar z))) [] S0 = RFault f
+                | RStuck _ => True
+                end).
+      { intro z. destruct (dpa ev v z) as [x|f|k] eqn:Ez; [| |exact I].
+        - rewrite (flat_block brs ev (one_stmt (arm_set (if_name m) iv ar z)) S0 eq_refl). rewrite exec_one. unfold arm_set. rewrite exec_set.
+          rewrite (eval_tpa ev S0 iv ar "auto" v z Hl); [|rewrite Ez; exact I]. rewrite Ez. cbn [rbind].
+          rewrite (lookup_fget _ _ _ Hfr).
+          destruct (assign_upd (if_name m) (conv "double" x) S0 _ _ Hfr) as (Ha & _).
+          assert (Ec : conv "double" (if String.eqb (pa_type z) "double" then x else conv "double" x) = conv "double" x)
+            by (destruct (String.eqb (pa_type z) "double"); [reflexivity|apply conv_double_idem]).
+          destruct (String.eqb (pa_type z) "double"); cbn zeta; rewrite ?conv_double_idem, Ha;
+            unfold S0; rewrite (upd_istate_T g n iv v T st _ _ _ _ (Hifiv m) Hr); reflexivity.
+        - rewrite (flat_block brs ev (one_stmt (arm_set (if_name m) iv ar z)) S0 eq_refl). rewrite exec_one. unfold arm_set. rewrite exec_set.
+          rewrite (eval_tpa ev S0 iv ar "auto" v z Hl); [|rewrite Ez; exact I]. rewrite Ez. reflexivity. }
+      destruct t.
+      * specialize (Arm a). destruct (dpa ev v a) as [x|f|k]; cbn [rbind]; [|exact Arm|exact I].
+        destruct (conv "double" x) eqn:Ec; try exact I; cbn [tsets List.length]; (split; [rewrite Arm; reflexivity|split; [reflexivity|constructor; [discriminate|constructor]]]).
+      * specialize (Arm b). destruct (dpa ev v b) as [x|f|k]; cbn [rbind]; [|exact Arm|exact I].
+        destruct (conv "double" x) eqn:Ec; try exact I; cbn [tsets List.length]; (split; [rewrite Arm; reflexivity|split; [reflexivity|constructor; [discriminate|constructor]]]).
+    + rewrite exec_one, exec_if. rewrite (eval_tpred ev S0 iv ar "auto" v c Hl); [|rewrite Ew; exact I]. rewrite Ew. reflexivity.
+  - rewrite exec_stmts_app.
+    specialize (IHx m T Hiv ltac:(intros k Hk; apply Hin; lia)).
+    destruct (dconds ev v x) as [l1|f|k]; cbn [rbind]; [|rewrite IHx; reflexivity|exact I].
+    destruct IHx as (E1 & L1 & N1). rewrite E1. cbn [rbind].
+    specialize (IHy (m + nifs x) (tsets m l1 T)).
+    assert (Hiv1 : frame_get iv (tsets m l1 T) = None).
+    { rewrite tsets_other; [exact Hiv|]. intro j. rewrite String.eqb_sym. apply Hifiv. }
+    assert (Hin1 : forall k, k < nifs y -> exists old, frame_get (if_name (m + nifs x + k)) (tsets m l1 T) = Some ("double", old)).
+    { intros k Hk. apply tsets_keeps. replace (m + nifs x + k) with (m + (nifs x + k)) by lia. apply Hin. lia. }
+    specialize (IHy Hiv1 Hin1).
+    destruct (dconds ev v y) as [l2|f|k]; cbn [rbind]; [|exact IHy|exact I].
+    destruct IHy as (E2 & L2 & N2). split; [|split].
+    + rewrite E2. rewrite tsets_app, L1. reflexivity.
+    + rewrite app_length. lia.
+    + apply Forall_app. split; assumption.
+Qed.
+
+Lemma nth_skipn_add {A} (l : list A) (d : A) : forall i k, nth k (skipn i l) d = nth (i + k) l d.
+Proof.
+  induction l as [|a r IH]; intros i k; destruct i; cbn [skipn nth Nat.add]; try reflexivity.
+  - destruct k; reflexivity.
+  - apply IH.
+Qed.
+Lemma nth_firstn_below {A} (l : list A) (d : A) : forall i k, k < i -> nth k (firstn i l) d = nth k l d.
+Proof.
+  induction l as [|a r IH]; intros i k Hk; destruct i; cbn [firstn nth]; try reflexivity; try lia.
+  destruct k; [reflexivity|]. apply IH. lia.
+Qed.
+
+(* the expression of a body reads the conditionals' variables *)
+Lemma bx_eval (ev : event) (g : guard) (n : nat) (iv : string) (ar : bool) (v : value) (st : state) (e : bexp) :
+  (forall j, String.eqb (if_name j) iv = false) ->
+  forall m T rs, frame_get iv T = None -> List.length rs = nifs e ->
+  (forall k, k < nifs e -> frame_get (if_name (m + k)) T = Some ("double", nth k rs VUninit) /\ nth k rs VUninit <> VUninit) ->
+  nstuck (dbx ev v e rs) ->
+  eval ev (istate g n iv v T st) (bx iv ar e m) = dbx ev v e rs.
+Proof.
+  intro Hifiv. induction e as [a|c a b|op x IHx y IHy]; intros m T rs Hiv Hlen Hin Hn; cbn [bx dbx nifs] in *.
+  - apply (eval_tpa ev _ iv ar "auto" v a (istate_iv g n iv v T st Hiv) Hn).
+  - destruct rs as [|r rest]; [discriminate|]. destruct (Hin 0 ltac:(lia)) as (Hr & Hu). rewrite Nat.add_0_r in Hr. cbn [nth] in *.
+    rewrite eval_var. rewrite (lookup_fget _ _ _ (istate_fget_T g n iv v T st _ _ (Hifiv m) Hr)).
+    destruct r; try reflexivity. contradiction.
+  - change (eval ev (istate g n iv v T st) (CBin op (bx iv ar x m) (bx iv ar y (m + nifs x))))
+      with (rbind (eval ev (istate g n iv v T st) (bx iv ar x m)) (fun p => rbind (eval ev (istate g n iv v T st) (bx iv ar y (m + nifs x))) (fun q => arith op p q))).
+    rewrite (IHx m T (firstn (nifs x) rs) Hiv).
+    + destruct (dbx ev v x (firstn (nifs x) rs)) as [p|f|k]; cbn [rbind] in *; [|reflexivity|destruct Hn].
+      rewrite (IHy (m + nifs x) T (skipn (nifs x) rs) Hiv); [reflexivity| | |exact (nstuck_bind_l _ _ Hn)].
+      * rewrite skipn_length. lia.
+      * intros k Hk. replace (m + nifs x + k) with (m + (nifs x + k)) by lia. rewrite nth_skipn_add. apply Hin. lia.
+    + rewrite firstn_length. lia.
+    + intros k Hk. rewrite nth_firstn_below; [apply Hin; lia|exact Hk].
+    + exact (nstuck_bind_l _ _ Hn).
 Qed.
 
 (* ---------- one Count: guards, loop, retrieval ---------- *)
@@ -486,79 +682,156 @@ Proof. intros [S|[nq N]] E; subst; discriminate. Qed.
 Lemma agg_step_ok (ev : event) (ty : string) (g : aggk) (acc v a' : value) :
   agg_step ev ty g acc v = ROk a' -> arithable a'.
 Proof.
-  unfold agg_step. destruct (match g with ACount => ROk (VInt 1) | ASum body => dpa ev v body end); cbn [rbind]; try discriminate.
+  unfold agg_step. destruct (match g with ACount => ROk (VInt 1) | ASum body => db ev v body end); cbn [rbind]; try discriminate.
   destruct (arith "+" acc a) eqn:E; cbn [rbind]; try discriminate. intro H. inversion H; subst.
   apply conv_arithable. eapply arith_arithable. exact E.
 Qed.
 
-Lemma exec_agg_update (brs : list branch) (ev : event) (iv : string) (ar : bool) (agg ty t : string) (g : aggk)
-      (s : state) (acc v : value) :
-  fget agg s = Some (ty, acc) -> acc <> VUninit -> lookup iv s = Some (t, v) ->
-  nstuck (agg_step ev ty g acc v) ->
-  exec_stmt brs ev (agg_update agg (agg_summand iv ar g)) s =
-  match agg_step ev ty g acc v with
+(* acc = acc + E, for any expression E whose value in the state is known *)
+Lemma exec_agg_update (brs : list branch) (ev : event) (agg ty : string) (E : cexp) (R : res value) (s : state) (acc : value) :
+  fget agg s = Some (ty, acc) -> acc <> VUninit -> eval ev s E = R ->
+  exec_stmt brs ev (agg_update agg E) s =
+  match (rdo x <- R; rdo sm <- arith "+" acc x; ROk (conv ty sm)) with
   | ROk a' => ROk (upd agg a' s)
   | RFault f => RFault f
   | RStuck k => RStuck k
   end.
 Proof.
-  intros H Hu Hl Hn. unfold agg_update. rewrite exec_set.
-  change (eval ev s (CBin "+" (CVar agg) (agg_summand iv ar g)))
-    with (rbind (eval ev s (CVar agg)) (fun x => rbind (eval ev s (agg_summand iv ar g)) (fun y => arith "+" x y))).
+  intros H Hu He. unfold agg_update. rewrite exec_set.
+  change (eval ev s (CBin "+" (CVar agg) E))
+    with (rbind (eval ev s (CVar agg)) (fun x => rbind (eval ev s E) (fun y => arith "+" x y))).
   rewrite eval_var. rewrite (lookup_fget _ _ _ H).
   assert (Ea : (match acc with VUninit => RStuck (KUninit agg) | _ => ROk acc end) = ROk acc) by (destruct acc; try reflexivity; contradiction).
-  rewrite Ea. cbn [rbind]. unfold agg_step in *.
-  assert (Es : eval ev s (agg_summand iv ar g) = match g with ACount => ROk (VInt 1) | ASum body => dpa ev v body end).
-  { destruct g as [|body]; cbn [agg_summand]; [reflexivity|].
-    apply (eval_tpa ev s iv ar t v body Hl). exact (nstuck_bind_l _ _ Hn). }
-  rewrite Es. destruct (match g with ACount => ROk (VInt 1) | ASum body => dpa ev v body end) as [x|f|k]; cbn [rbind] in *; try reflexivity.
-  destruct (arith "+" acc x) as [sm|f|k]; cbn [rbind] in *; try reflexivity.
+  rewrite Ea. cbn [rbind]. rewrite He. destruct R as [x|f|k]; cbn [rbind]; try reflexivity.
+  destruct (arith "+" acc x) as [sm|f|k]; cbn [rbind]; try reflexivity.
   destruct (assign_upd agg (conv ty sm) s ty acc H) as (Ha & _). rewrite Ha. reflexivity.
 Qed.
 
-Lemma lframe_other (g : guard) (n : nat) (iv : string) (v : value) (b : bool) (x : string) :
-  String.eqb x iv = false -> String.eqb x (bo_name n) = false -> frame_get x (lframe g n iv v b) = None.
+(* the declarations of a body's conditionals *)
+Lemma frame_get_app (x : string) (f1 f2 : frame) :
+  frame_get x (f1 ++ f2) = match frame_get x f1 with Some tv => Some tv | None => frame_get x f2 end.
+Proof. induction f1 as [|[y tv] r IH]; cbn [app frame_get]; [reflexivity|]. destruct (String.eqb x y); [reflexivity|exact IH]. Qed.
+Lemma dframe_app (d1 d2 : list decl) : dframe (d1 ++ d2) = dframe d1 ++ dframe d2.
+Proof. unfold dframe. apply map_app. Qed.
+Lemma bdecls_free (e : bexp) : forall m, init_free (bdecls e m).
 Proof.
-  intros H1 H2. unfold lframe. destruct g; cbn [frame_get]; rewrite H1; [reflexivity|]. rewrite H2. reflexivity.
+  induction e as [a|c a b|op x IHx y IHy]; intro m; cbn [bdecls]; [constructor|constructor; [reflexivity|constructor]|].
+  apply Forall_app. split; [apply IHx|apply IHy].
 Qed.
-Lemma lframe_iv (g : guard) (n : nat) (iv : string) (v : value) (b : bool) (st : state) :
-  lookup iv (enter (lframe g n iv v b) st) = Some ("auto", v).
-Proof. unfold lookup, enter, lframe. cbn [frames frames_get frame_get]. rewrite String.eqb_refl. reflexivity. Qed.
-Lemma lframe_fget_iv (g : guard) (n : nat) (iv : string) (v : value) (b : bool) (st : state) :
-  fget iv (enter (lframe g n iv v b) st) = Some ("auto", v).
-Proof. unfold fget, enter, lframe. cbn [frames frames_get frame_get]. rewrite String.eqb_refl. reflexivity. Qed.
+Lemma bdecls_none (e : bexp) : forall m x, (forall k, k < nifs e -> String.eqb x (if_name (m + k)) = false) ->
+  frame_get x (dframe (bdecls e m)) = None.
+Proof.
+  induction e as [a|c a b|op y IHy z IHz]; intros m x H; cbn [bdecls nifs dframe map frame_get d_name] in *; try reflexivity.
+  - specialize (H 0 ltac:(lia)). rewrite Nat.add_0_r in H. rewrite H. reflexivity.
+  - fold (dframe (bdecls y m ++ bdecls z (m + nifs y))). rewrite dframe_app, frame_get_app.
+    rewrite (IHy m x); [|intros k Hk; apply H; lia].
+    apply IHz. intros k Hk. replace (m + nifs y + k) with (m + (nifs y + k)) by lia. apply H. lia.
+Qed.
+Lemma bdecls_get (e : bexp) : forall m k, k < nifs e -> frame_get (if_name (m + k)) (dframe (bdecls e m)) = Some ("double", VUninit).
+Proof.
+  induction e as [a|c a b|op y IHy z IHz]; intros m k Hk; cbn [bdecls nifs] in *; try lia.
+  - assert (k = 0) by lia. subst k. rewrite Nat.add_0_r. cbn [dframe map frame_get d_name d_type]. rewrite String.eqb_refl. reflexivity.
+  - rewrite dframe_app, frame_get_app.
+    destruct (Nat.lt_ge_cases k (nifs y)) as [Hlt|Hge].
+    + rewrite (IHy m k Hlt). reflexivity.
+    + rewrite (bdecls_none y m).
+      * replace (m + k) with (m + nifs y + (k - nifs y)) by lia. apply IHz. lia.
+      * intros j Hj. destruct (String.eqb (if_name (m + k)) (if_name (m + j))) eqn:E; [|reflexivity].
+        apply String.eqb_eq, if_name_inj in E. lia.
+Qed.
+Lemma if_not_name (b : string) (i j : nat) : last_digit b = false -> b <> "if_else_result" -> String.eqb (nm b i) (if_name j) = false.
+Proof. intros H1 H2. apply nm_neq_base; [exact H1|reflexivity|exact H2]. Qed.
 
-Lemma loop_agg (brs : list branch) (ev : event) (iv : string) (ar : bool) (agg ty : string) (g : aggk) (gd : guard) (n : nat) (l : list value) :
+(* what the consumer of a body's value sees after the conditionals have run *)
+Lemma body_ready (brs : list branch) (ev : event) (g : guard) (n : nat) (iv : string) (ar : bool) (v : value) (st : state) (e : bexp) (m : nat) :
+  (forall j, String.eqb (if_name j) iv = false) ->
+  match dconds ev v e with
+  | ROk rs =>
+      exists T', exec_stmts brs ev (bpre iv ar e m) (istate g n iv v (dframe (bdecls e m)) st) = ROk (istate g n iv v T' st) /\
+                 frame_get iv T' = None /\
+                 (forall y, (forall j, String.eqb y (if_name j) = false) -> frame_get y T' = None) /\
+                 (nstuck (dbx ev v e rs) -> eval ev (istate g n iv v T' st) (bx iv ar e m) = dbx ev v e rs)
+  | RFault f => exec_stmts brs ev (bpre iv ar e m) (istate g n iv v (dframe (bdecls e m)) st) = RFault f
+  | RStuck _ => True
+  end.
+Proof.
+  intro Hifiv.
+  assert (Hiv0 : frame_get iv (dframe (bdecls e m)) = None).
+  { apply bdecls_none. intros k _. rewrite String.eqb_sym. apply Hifiv. }
+  pose proof (bpre_exec brs ev g n iv ar v st e Hifiv m (dframe (bdecls e m)) Hiv0) as P.
+  assert (Hin0 : forall k, k < nifs e -> exists old, frame_get (if_name (m + k)) (dframe (bdecls e m)) = Some ("double", old)).
+  { intros k Hk. eexists. apply bdecls_get, Hk. }
+  specialize (P Hin0).
+  destruct (dconds ev v e) as [rs|f|k]; [|exact P|exact I].
+  destruct P as (E & L & N). exists (tsets m rs (dframe (bdecls e m))). split; [exact E|]. split; [|split].
+  - rewrite tsets_other; [exact Hiv0|]. intro j. rewrite String.eqb_sym. apply Hifiv.
+  - intros y Hy. rewrite tsets_other; [|exact Hy]. apply bdecls_none. intros k _. apply Hy.
+  - intro Hn. apply (bx_eval ev g n iv ar v st e Hifiv m _ rs); try assumption.
+    + rewrite tsets_other; [exact Hiv0|]. intro j. rewrite String.eqb_sym. apply Hifiv.
+    + intros k Hk. split.
+      * apply tsets_get; [|lia]. intros j Hj. apply Hin0. lia.
+      * rewrite Forall_forall in N. apply N. apply nth_In. lia.
+Qed.
+
+Lemma loop_agg (brs : list branch) (ev : event) (iv : string) (ar : bool) (agg ty : string) (g : aggk) (gd : guard) (n m : nat) (l : list value) :
   forall (st : state) (acc : value),
   fget agg st = Some (ty, acc) -> acc <> VUninit -> String.eqb agg iv = false -> String.eqb agg (bo_name n) = false ->
+  (forall j, String.eqb agg (if_name j) = false) -> (forall j, String.eqb (if_name j) iv = false) ->
   String.eqb iv (bo_name n) = false -> String.eqb (bo_name n) iv = false ->
   nstuck (agg_loop ev ty g gd l acc) ->
-  for_loop brs ev iv (loop_block iv ar gd n (one_stmt (agg_update agg (agg_summand iv ar g)))) l st =
+  for_loop brs ev iv (loop_block iv ar gd n (agg_ds g m) (app_stmts (agg_pre iv ar g m) (one_stmt (agg_update agg (agg_summand iv ar g m))))) l st =
   match agg_loop ev ty g gd l acc with
   | ROk z => ROk (upd agg z st)
   | RFault f => RFault f
   | RStuck k => RStuck k
   end.
 Proof.
-  induction l as [|v r IH]; intros st acc Hg Hu Hne Hnb Hib Hbi Hn.
+  induction l as [|v r IH]; intros st acc Hg Hu Hne Hnb Hnf Hifiv Hib Hbi Hn.
   - cbn [agg_loop]. rewrite for_loop_nil. rewrite (upd_same agg acc st ty Hg). reflexivity.
   - cbn [agg_loop] in *. rewrite for_loop_cons.
-    rewrite (loop_block_exec brs ev iv ar gd n (one_stmt (agg_update agg (agg_summand iv ar g))) v st eq_refl Hib Hbi (nstuck_bind_l _ _ Hn)).
+    assert (Hfree : init_free (agg_ds g m)) by (destruct g; [constructor|apply bdecls_free]).
+    rewrite (loop_block_exec brs ev iv ar gd n _ _ v st Hfree Hib Hbi (nstuck_bind_l _ _ Hn)).
     destruct (gpasses ev v gd) as [b|f|k]; cbn [rbind] in *; [|reflexivity|destruct Hn].
-    destruct b; cbn [rbind].
-    + set (s := enter (lframe gd n iv v true) st).
-      assert (Hg' : fget agg s = Some (ty, acc)).
-      { unfold s. rewrite fget_enter; [exact Hg|]. apply lframe_other; assumption. }
-      rewrite exec_one.
-      rewrite (exec_agg_update brs ev iv ar agg ty "auto" g s acc v Hg' Hu (lframe_iv gd n iv v true st) (nstuck_bind_l _ _ Hn)).
-      destruct (agg_step ev ty g acc v) as [a'|f|k] eqn:Es; cbn [rbind] in *; [|reflexivity|destruct Hn].
-      unfold s. rewrite (upd_enter agg _ _ st ty acc); [|apply lframe_other; assumption|exact Hg].
-      rewrite pop_enter.
-      destruct (assign_upd agg a' st ty acc Hg) as (_ & _ & Hg1 & _).
-      rewrite (IH _ a' Hg1 (arithable_not_uninit _ (agg_step_ok _ _ _ _ _ _ Es)) Hne Hnb Hib Hbi Hn).
-      destruct (agg_loop ev ty g gd r a') as [z|f|k]; try reflexivity.
-      rewrite (upd_upd agg _ _ st ty acc Hg). reflexivity.
-    + apply (IH st acc Hg Hu Hne Hnb Hib Hbi Hn).
+    destruct b; cbn [rbind]; [|apply (IH st acc Hg Hu Hne Hnb Hnf Hifiv Hib Hbi Hn)].
+    rewrite exec_stmts_app.
+    (* after the conditionals: a state S1 = istate .. T' st in which the summand has its reference value *)
+    assert (Step : exists T',
+              (match (match g with ACount => ROk [] | ASum body => dconds ev v body end) with
+               | ROk rs => exec_stmts brs ev (agg_pre iv ar g m) (istate gd n iv v (dframe (agg_ds g m)) st) = ROk (istate gd n iv v T' st) /\
+                           frame_get iv T' = None /\ frame_get agg T' = None /\
+                           (nstuck (match g with ACount => ROk (VInt 1) | ASum body => dbx ev v body rs end) ->
+                            eval ev (istate gd n iv v T' st) (agg_summand iv ar g m) = match g with ACount => ROk (VInt 1) | ASum body => dbx ev v body rs end)
+               | RFault f => exec_stmts brs ev (agg_pre iv ar g m) (istate gd n iv v (dframe (agg_ds g m)) st) = RFault f
+               | RStuck _ => True
+               end)).
+    { destruct g as [|body]; cbn [agg_pre agg_ds agg_summand].
+      - exists []. repeat split; reflexivity.
+      - pose proof (body_ready brs ev gd n iv ar v st body m Hifiv) as B.
+        destruct (dconds ev v body) as [rs|f|k]; [|exists []; exact B|exists []; exact I].
+        destruct B as (T' & E & Hiv' & Hoth & Hev). exists T'. split; [exact E|]. split; [exact Hiv'|]. split; [apply Hoth, Hnf|exact Hev]. }
+    destruct Step as (T' & Step).
+    unfold agg_step in Hn |- *.
+    assert (Edb : (match g with ACount => ROk (VInt 1) | ASum body => db ev v body end) =
+                  rbind (match g with ACount => ROk [] | ASum body => dconds ev v body end)
+                        (fun rs => match g with ACount => ROk (VInt 1) | ASum body => dbx ev v body rs end))
+      by (destruct g; reflexivity).
+    rewrite Edb in *.
+    destruct (match g with ACount => ROk [] | ASum body => dconds ev v body end) as [rs|f|k]; cbn [rbind] in *; [|rewrite Step; reflexivity|destruct Hn].
+    destruct Step as (E & Hiv' & Hagg' & Hev). rewrite E. cbn [rbind]. rewrite exec_one.
+    set (S1 := istate gd n iv v T' st).
+    assert (Hg1 : fget agg S1 = Some (ty, acc)) by (unfold S1; rewrite istate_fget_other; assumption).
+    set (R := match g with ACount => ROk (VInt 1) | ASum body => dbx ev v body rs end) in *.
+    assert (HnR : nstuck R) by (destruct R; [exact I|exact I|destruct Hn]).
+    rewrite (exec_agg_update brs ev agg ty _ R S1 acc Hg1 Hu (Hev HnR)).
+    destruct R as [x|f|k]; cbn [rbind] in *; [|reflexivity|destruct Hn].
+    destruct (arith "+" acc x) as [sm|f|k] eqn:Ea; cbn [rbind] in *; [|reflexivity|destruct Hn].
+    unfold S1. rewrite (upd_istate_other gd n iv v T' st agg _ ty acc Hne Hnb Hagg' Hg). rewrite ipop_istate.
+    destruct (assign_upd agg (conv ty sm) st ty acc Hg) as (_ & _ & Hg2 & _).
+    assert (Hu2 : conv ty sm <> VUninit).
+    { apply arithable_not_uninit, conv_arithable. eapply arith_arithable. exact Ea. }
+    rewrite (IH _ _ Hg2 Hu2 Hne Hnb Hnf Hifiv Hib Hbi Hn).
+    destruct (agg_loop ev ty g gd r (conv ty sm)) as [z|f|k]; try reflexivity.
+    rewrite (upd_upd agg _ _ st ty acc Hg). reflexivity.
 Qed.
 
 (* the two statements of one aggregate, run in a state in which its two variables are declared *)
@@ -595,15 +868,17 @@ Proof.
   { apply arithable_not_uninit, conv_arithable. right. cbn. eauto. }
   assert (Hib : String.eqb (iv_name n) (bo_name n) = false) by (apply nm_neq; [reflexivity|reflexivity|lia]).
   assert (Hbi : String.eqb (bo_name n) (iv_name n) = false) by (apply nm_neq; [reflexivity|reflexivity|lia]).
+  assert (Hnf : forall j, String.eqb (kagg k n) (if_name j) = false) by (intro j; apply nm_neq_base; [reflexivity|reflexivity|discriminate]).
+  assert (Hifiv : forall j, String.eqb (if_name j) (iv_name n) = false) by (intro j; apply nm_neq_base; [reflexivity|reflexivity|discriminate]).
   destruct c; cbn [rbind]; try exact I; try reflexivity.
   destruct (agg_loop ev (agg_type k) (k_agg k) (k_guard k) l (conv (agg_type k) (VInt 0))) as [z|f|kk] eqn:Ec; [| |exact I].
-  - rewrite (loop_agg brs ev _ _ _ _ _ _ n l _ _ Hagg1 Hu Hne2 Hne3 Hib Hbi); rewrite Ec; [reflexivity|exact I].
-  - rewrite (loop_agg brs ev _ _ _ _ _ _ n l _ _ Hagg1 Hu Hne2 Hne3 Hib Hbi); rewrite Ec; [reflexivity|exact I].
+  - rewrite (loop_agg brs ev _ _ _ _ _ _ n _ l _ _ Hagg1 Hu Hne2 Hne3 Hnf Hifiv Hib Hbi); rewrite Ec; [reflexivity|exact I].
+  - rewrite (loop_agg brs ev _ _ _ _ _ _ n _ l _ _ Hagg1 Hu Hne2 Hne3 Hnf Hifiv Hib Hbi); rewrite Ec; [reflexivity|exact I].
 Qed.
 
 (* ---------- the translator, component-wise ---------- *)
 Fixpoint size (e : ex) : nat :=
-  match e with EInt _ => 0 | ECount k => 3 + gsize (k_guard k) | EBin _ a b => size a + size b end.
+  match e with EInt _ => 0 | ECount k => 3 + gsize (k_guard k) + agg_nifs (k_agg k) | EBin _ a b => size a + size b end.
 Fixpoint tds (e : ex) (n : nat) : list decl :=
   match e with EInt _ => [] | ECount k => tcount_decls k n | EBin _ a b => tds a n ++ tds b (n + size a) end.
 Fixpoint tss (idiom : string) (e : ex) (n : nat) : stmts :=
@@ -620,7 +895,7 @@ Lemma te_split (idiom : string) (e : ex) : forall n, te idiom e n = (tds e n, ts
 Proof.
   induction e as [z|k|o a IHa b IHb]; intro n; cbn [te tds tss tc size].
   - rewrite Nat.add_0_r. reflexivity.
-  - replace (n + (3 + gsize (k_guard k))) with (S (S (S n)) + gsize (k_guard k)) by lia. reflexivity.
+  - replace (n + (3 + gsize (k_guard k) + agg_nifs (k_agg k))) with (S (S (S n)) + gsize (k_guard k) + agg_nifs (k_agg k)) by lia. reflexivity.
   - rewrite IHa, IHb. rewrite Nat.add_assoc. reflexivity.
 Qed.
 
@@ -640,7 +915,7 @@ Proof.
   - unfold base_ok in Hb. apply andb_prop in Hb as [H1 H2]. apply negb_true_iff in H1.
     destruct Hin as [<-|[<-|[]]].
     + exists (c_base (k_coll k)), n. repeat split; auto; lia.
-    + exists "aggResult", (S (S (n + gsize (k_guard k)))). repeat split; auto; lia.
+    + exists "aggResult", (S (S (n + gsize (k_guard k) + agg_nifs (k_agg k)))). repeat split; auto; lia.
   - apply andb_prop in Hb as [Ha Hb']. apply in_app_or in Hin as [Hin|Hin].
     + destruct (IHa n x Ha Hin) as (bb & i & E & L & F & R). exists bb, i. repeat split; auto; lia.
     + destruct (IHb _ x Hb' Hin) as (bb & i & E & L & F & R). exists bb, i. repeat split; auto; lia.
@@ -816,6 +1091,12 @@ Proof.
   induction a as [z|tx n d|m|op x IHx y IHy|x IHx y IHy|x IHx|f x IHx]; cbn [pa_type]; auto.
   destruct (String.eqb (pa_type x) "int" && String.eqb (pa_type y) "int"); auto.
 Qed.
+Lemma btype_cases (e : bexp) : btype e = "int" \/ btype e = "double".
+Proof.
+  induction e as [a|c a b|op x IHx y IHy]; cbn [btype]; [apply pa_type_cases|auto|].
+  destruct (String.eqb (btype x) "int" && String.eqb (btype y) "int"); auto.
+Qed.
+
 
 (* ---------- block entry: the declarations ---------- *)
 Lemma run_decls_app (ev : event) (d1 d2 : list decl) (st : state) :
@@ -874,7 +1155,7 @@ Proof.
     assert (Ei : init_value (agg_type k) (VInt 0) = conv (agg_type k) (VInt 0)).
     { unfold init_value. destruct (is_vector_type (agg_type k)) eqn:Ev; [|reflexivity].
       exfalso. unfold agg_type in Ev. destruct (k_agg k) as [|body]; [discriminate|].
-      destruct (pa_type_cases body) as [E|E]; rewrite E in Ev; discriminate. }
+      destruct (btype_cases body) as [E|E]; rewrite E in Ev; discriminate. }
     rewrite Ei.
     destruct (declare_spec (kagg k n) (agg_type k) (conv (agg_type k) (VInt 0)) st1 F2) as (G2 & O2 & M2 & R2).
     eexists. split; [reflexivity|]. split; [split|].
@@ -1023,60 +1304,71 @@ Proof.
   rewrite B. destruct st; reflexivity.
 Qed.
 
-Lemma vec_elem_type (a : pa) : vector_elem_type (vec_type (pa_type a)) = pa_type a.
-Proof. destruct (pa_type_cases a) as [E|E]; rewrite E; reflexivity. Qed.
-Lemma vec_is_vector (a : pa) : is_vector_type (vec_type (pa_type a)) = true.
-Proof. destruct (pa_type_cases a) as [E|E]; rewrite E; reflexivity. Qed.
+Lemma vec_elem_type (a : bexp) : vector_elem_type (vec_type (btype a)) = btype a.
+Proof. destruct (btype_cases a) as [E|E]; rewrite E; reflexivity. Qed.
+Lemma vec_is_vector (a : bexp) : is_vector_type (vec_type (btype a)) = true.
+Proof. destruct (btype_cases a) as [E|E]; rewrite E; reflexivity. Qed.
 
 (* ---------- one vector column ---------- *)
-Lemma exec_push (brs : list branch) (ev : event) (iv : string) (ar : bool) (mem t : string) (body : pa)
-      (s : state) (acc : list value) (v : value) :
-  fget mem s = None -> mget mem s = Some (vec_type (pa_type body), VVec acc) -> lookup iv s = Some (t, v) ->
-  nstuck (dpa ev v body) ->
-  exec_stmt brs ev (SPush mem None (tpa iv ar body)) s =
-  match dpa ev v body with
-  | ROk x => ROk (updm mem (VVec (acc ++ [conv (pa_type body) x])) s)
+Lemma updm_istate (g : guard) (n : nat) (iv : string) (v : value) (T : frame) (st : state) (x : string) (a : value) :
+  updm x a (istate g n iv v T st) = istate g n iv v T (updm x a st).
+Proof. destruct g; cbn [istate]; rewrite ?updm_enter; reflexivity. Qed.
+Lemma mget_istate (g : guard) (n : nat) (iv : string) (v : value) (T : frame) (st : state) (x : string) :
+  mget x (istate g n iv v T st) = mget x st.
+Proof. destruct g; reflexivity. Qed.
+
+(* mem.push_back(E), for any expression E whose value in the state is known *)
+Lemma exec_push (brs : list branch) (ev : event) (mem ty : string) (E : cexp) (R : res value) (s : state) (acc : list value) :
+  fget mem s = None -> mget mem s = Some (vec_type ty, VVec acc) -> vector_elem_type (vec_type ty) = ty -> eval ev s E = R ->
+  exec_stmt brs ev (SPush mem None E) s =
+  match R with
+  | ROk x => ROk (updm mem (VVec (acc ++ [conv ty x])) s)
   | RFault f => RFault f
   | RStuck k => RStuck k
   end.
 Proof.
-  intros Hf Hm Hl Hn. cbn [exec_stmt]. rewrite (eval_tpa ev s iv ar t v body Hl Hn).
-  destruct (dpa ev v body) as [x|f|k]; cbn [rbind]; try reflexivity.
-  destruct (assign_updm mem (VVec (acc ++ [conv (pa_type body) x])) s _ _ Hf Hm) as (Ha & Hlk & _).
-  rewrite Hlk. rewrite vec_elem_type. rewrite Ha. reflexivity.
+  intros Hf Hm Hty He. cbn [exec_stmt]. rewrite He.
+  destruct R as [x|f|k]; cbn [rbind]; try reflexivity.
+  destruct (assign_updm mem (VVec (acc ++ [conv ty x])) s _ _ Hf Hm) as (Ha & Hlk & _).
+  rewrite Hlk. rewrite Hty. rewrite Ha. reflexivity.
 Qed.
 
-Lemma loop_push (brs : list branch) (ev : event) (iv : string) (ar : bool) (mem : string) (body : pa) (ps : guard) (n : nat) (l : list value) :
+Lemma loop_push (brs : list branch) (ev : event) (iv : string) (ar : bool) (mem : string) (body : bexp) (ps : guard) (n m : nat) (l : list value) :
   forall (st : state) (acc : list value),
   fget mem st = None -> String.eqb mem iv = false -> String.eqb mem (bo_name n) = false ->
+  (forall j, String.eqb mem (if_name j) = false) -> (forall j, String.eqb (if_name j) iv = false) ->
   String.eqb iv (bo_name n) = false -> String.eqb (bo_name n) iv = false ->
-  mget mem st = Some (vec_type (pa_type body), VVec acc) ->
-  nstuck (vec_loop ev (pa_type body) body ps l acc) ->
-  for_loop brs ev iv (loop_block iv ar ps n (one_stmt (SPush mem None (tpa iv ar body)))) l st =
-  match vec_loop ev (pa_type body) body ps l acc with
+  mget mem st = Some (vec_type (btype body), VVec acc) ->
+  nstuck (vec_loop ev (btype body) body ps l acc) ->
+  for_loop brs ev iv (loop_block iv ar ps n (bdecls body m) (app_stmts (bpre iv ar body m) (one_stmt (SPush mem None (bx iv ar body m))))) l st =
+  match vec_loop ev (btype body) body ps l acc with
   | ROk vs => ROk (updm mem (VVec vs) st)
   | RFault f => RFault f
   | RStuck k => RStuck k
   end.
 Proof.
-  induction l as [|v r IH]; intros st acc Hf Hne Hnb Hib Hbi Hm Hn.
+  induction l as [|v r IH]; intros st acc Hf Hne Hnb Hnf Hifiv Hib Hbi Hm Hn.
   - cbn [vec_loop]. rewrite for_loop_nil. rewrite (updm_same mem _ st _ Hm). reflexivity.
   - cbn [vec_loop] in *. rewrite for_loop_cons.
-    rewrite (loop_block_exec brs ev iv ar ps n (one_stmt (SPush mem None (tpa iv ar body))) v st eq_refl Hib Hbi (nstuck_bind_l _ _ Hn)).
+    rewrite (loop_block_exec brs ev iv ar ps n _ _ v st (bdecls_free body m) Hib Hbi (nstuck_bind_l _ _ Hn)).
     destruct (gpasses ev v ps) as [b|f|k]; cbn [rbind] in *; [|reflexivity|destruct Hn].
-    destruct b; cbn [rbind].
-    + set (s := enter (lframe ps n iv v true) st).
-      assert (Hf' : fget mem s = None).
-      { unfold s. rewrite fget_enter; [exact Hf|]. apply lframe_other; assumption. }
-      rewrite exec_one.
-      rewrite (exec_push brs ev iv ar mem "auto" body s acc v Hf' Hm (lframe_iv ps n iv v true st) (nstuck_bind_l _ _ Hn)).
-      destruct (dpa ev v body) as [x|f|k] eqn:Ex; cbn [rbind] in *; [|reflexivity|destruct Hn].
-      unfold s. rewrite updm_enter, pop_enter.
-      destruct (assign_updm mem (VVec (acc ++ [conv (pa_type body) x])) st _ _ Hf Hm) as (_ & _ & Hm1 & _).
-      rewrite (IH _ _ (eq_trans (fget_updm _ _ _ _) Hf) Hne Hnb Hib Hbi Hm1 Hn).
-      destruct (vec_loop ev (pa_type body) body ps r (acc ++ [conv (pa_type body) x])) as [vs|f|k]; try reflexivity.
-      rewrite (updm_updm mem _ _ st _ _ Hm). reflexivity.
-    + apply (IH st acc Hf Hne Hnb Hib Hbi Hm Hn).
+    destruct b; cbn [rbind]; [|apply (IH st acc Hf Hne Hnb Hnf Hifiv Hib Hbi Hm Hn)].
+    rewrite exec_stmts_app.
+    pose proof (body_ready brs ev ps n iv ar v st body m Hifiv) as B.
+    unfold db in Hn |- *.
+    destruct (dconds ev v body) as [rs|f|k]; cbn [rbind] in *; [|rewrite B; reflexivity|destruct Hn].
+    destruct B as (T' & E & Hiv' & Hoth & Hev). rewrite E. cbn [rbind]. rewrite exec_one.
+    set (S1 := istate ps n iv v T' st).
+    assert (Hf1 : fget mem S1 = None) by (unfold S1; rewrite istate_fget_other; [exact Hf|exact Hne|exact Hnb|apply Hoth, Hnf]).
+    assert (Hm1 : mget mem S1 = Some (vec_type (btype body), VVec acc)) by (unfold S1; rewrite mget_istate; exact Hm).
+    assert (HnR : nstuck (dbx ev v body rs)) by (destruct (dbx ev v body rs); [exact I|exact I|destruct Hn]).
+    rewrite (exec_push brs ev mem (btype body) _ (dbx ev v body rs) S1 acc Hf1 Hm1 (vec_elem_type body) (Hev HnR)).
+    destruct (dbx ev v body rs) as [x|f|k] eqn:Ex; cbn [rbind] in *; [|reflexivity|destruct Hn].
+    unfold S1. rewrite updm_istate, ipop_istate.
+    destruct (assign_updm mem (VVec (acc ++ [conv (btype body) x])) st _ _ Hf Hm) as (_ & _ & Hm2 & _).
+    rewrite (IH _ _ (eq_trans (fget_updm _ _ _ _) Hf) Hne Hnb Hnf Hifiv Hib Hbi Hm2 Hn).
+    destruct (vec_loop ev (btype body) body ps r (acc ++ [conv (btype body) x])) as [vs|f|k]; try reflexivity.
+    rewrite (updm_updm mem _ _ st _ _ Hm). reflexivity.
 Qed.
 
 (* ---------- one First column ---------- *)
@@ -1142,7 +1434,7 @@ Lemma loop_first (brs : list branch) (ev : event) (iv : string) (ar : bool) (isf
   fget isf st = Some ("bool", VBool (match found with None => true | Some _ => false end)) ->
   fget mem st = None -> mget mem st = Some (pa_type body, match found with Some x => x | None => old end) ->
   nstuck (first_loop ev (pa_type body) body ps l found) ->
-  for_loop brs ev iv (loop_block iv ar ps n (one_stmt (fi_capture isf [] (one_stmt (SSet mem None (tpa iv ar body)))))) l st =
+  for_loop brs ev iv (loop_block iv ar ps n [] (one_stmt (fi_capture isf [] (one_stmt (SSet mem None (tpa iv ar body)))))) l st =
   match first_loop ev (pa_type body) body ps l found with
   | ROk o => ROk (first_state isf mem found o st)
   | RFault f => RFault f
@@ -1152,36 +1444,37 @@ Proof.
   induction l as [|v r IH]; intros st found old Hne1 Hne2 Hne3 Hfb Hmb Hib Hbi Hf Hm Hmg Hn.
   - cbn [first_loop]. rewrite for_loop_nil. unfold first_state. destruct found; reflexivity.
   - cbn [first_loop] in *. rewrite for_loop_cons.
-    rewrite (loop_block_exec brs ev iv ar ps n (one_stmt (fi_capture isf [] (one_stmt (SSet mem None (tpa iv ar body))))) v st eq_refl Hib Hbi (nstuck_bind_l _ _ Hn)).
+    rewrite (loop_block_exec brs ev iv ar ps n [] _ v st (Forall_nil _) Hib Hbi (nstuck_bind_l _ _ Hn)).
     destruct (gpasses ev v ps) as [b|f|k]; cbn [rbind] in *; [|reflexivity|destruct Hn].
-    destruct b; cbn [rbind].
-    + set (s0 := enter (lframe ps n iv v true) st).
-      assert (Hf0 : fget isf s0 = Some ("bool", VBool (match found with None => true | Some _ => false end))).
-      { unfold s0. rewrite fget_enter; [exact Hf|]. apply lframe_other; assumption. }
-      assert (Hm0 : fget mem s0 = None).
-      { unfold s0. rewrite fget_enter; [exact Hm|]. apply lframe_other; assumption. }
-      rewrite exec_one.
-      rewrite (exec_capture brs ev iv ar isf mem "auto" body s0 _ _ v Hf0 Hm0 Hmg (lframe_iv ps n iv v true st) Hne1).
-      2:{ intro Ea. destruct found; [discriminate|]. exact (nstuck_bind_l _ _ Hn). }
-      destruct found as [x0|].
-      * cbn [rbind]. unfold s0. rewrite pop_enter. apply (IH st (Some x0) old Hne1 Hne2 Hne3 Hfb Hmb Hib Hbi Hf Hm Hmg Hn).
-      * destruct (dpa ev v body) as [x|f|k] eqn:Ex; cbn [rbind] in *; [|reflexivity|destruct Hn].
-        unfold s0. rewrite (upd_enter isf (VBool false) _ st "bool" (VBool true)); [|apply lframe_other; assumption|exact Hf].
-        rewrite updm_enter, pop_enter.
-        set (x' := conv (pa_type body) x) in *.
-        destruct (assign_upd isf (VBool false) st _ _ Hf) as (_ & _ & G1 & O1 & _ & _).
-        assert (Hme : String.eqb mem isf = false).
-        { destruct (String.eqb mem isf) eqn:E; [|reflexivity]. apply String.eqb_eq in E. subst mem. rewrite Hm in Hf. discriminate. }
-        assert (Hm1 : fget mem (upd isf (VBool false) st) = None) by (rewrite (O1 mem Hme); exact Hm).
-        assert (Hmg1 : mget mem (upd isf (VBool false) st) = Some (pa_type body, old)) by (rewrite mget_upd; exact Hmg).
-        destruct (assign_updm mem x' (upd isf (VBool false) st) _ _ Hm1 Hmg1) as (_ & _ & G2 & _ & _ & _).
-        set (st1 := updm mem x' (upd isf (VBool false) st)) in *.
-        assert (Hf1 : fget isf st1 = Some ("bool", VBool false)) by (unfold st1; rewrite fget_updm; exact G1).
-        assert (Hm2 : fget mem st1 = None) by (unfold st1; rewrite fget_updm; exact Hm1).
-        rewrite (IH st1 (Some x') old Hne1 Hne2 Hne3 Hfb Hmb Hib Hbi Hf1 Hm2 G2 Hn).
-        destruct (first_loop ev (pa_type body) body ps r (Some x')) as [o|f|k] eqn:Er; try reflexivity.
-        rewrite (first_loop_some ev _ body ps r x' o Er). reflexivity.
-    + apply (IH st found old Hne1 Hne2 Hne3 Hfb Hmb Hib Hbi Hf Hm Hmg Hn).
+    destruct b; cbn [rbind]; [|apply (IH st found old Hne1 Hne2 Hne3 Hfb Hmb Hib Hbi Hf Hm Hmg Hn)].
+    change (dframe []) with (@nil binding).
+    set (s0 := istate ps n iv v [] st).
+    assert (Hf0 : fget isf s0 = Some ("bool", VBool (match found with None => true | Some _ => false end))).
+    { unfold s0. rewrite istate_fget_other; [exact Hf|exact Hne2|exact Hfb|reflexivity]. }
+    assert (Hm0 : fget mem s0 = None).
+    { unfold s0. rewrite istate_fget_other; [exact Hm|exact Hne3|exact Hmb|reflexivity]. }
+    assert (Hmg0 : mget mem s0 = Some (pa_type body, match found with Some x => x | None => old end)) by (unfold s0; rewrite mget_istate; exact Hmg).
+    rewrite exec_one.
+    rewrite (exec_capture brs ev iv ar isf mem "auto" body s0 _ _ v Hf0 Hm0 Hmg0 (istate_iv ps n iv v [] st eq_refl) Hne1).
+    2:{ intro Ea. destruct found; [discriminate|]. exact (nstuck_bind_l _ _ Hn). }
+    destruct found as [x0|].
+    + cbn [rbind]. unfold s0. rewrite ipop_istate. apply (IH st (Some x0) old Hne1 Hne2 Hne3 Hfb Hmb Hib Hbi Hf Hm Hmg Hn).
+    + destruct (dpa ev v body) as [x|f|k] eqn:Ex; cbn [rbind] in *; [|reflexivity|destruct Hn].
+      unfold s0. rewrite (upd_istate_other ps n iv v [] st isf _ "bool" (VBool true) Hne2 Hfb eq_refl Hf).
+      rewrite updm_istate, ipop_istate.
+      set (x' := conv (pa_type body) x) in *.
+      destruct (assign_upd isf (VBool false) st _ _ Hf) as (_ & _ & G1 & O1 & _ & _).
+      assert (Hme : String.eqb mem isf = false).
+      { destruct (String.eqb mem isf) eqn:E; [|reflexivity]. apply String.eqb_eq in E. subst mem. rewrite Hm in Hf. discriminate. }
+      assert (Hm1 : fget mem (upd isf (VBool false) st) = None) by (rewrite (O1 mem Hme); exact Hm).
+      assert (Hmg1 : mget mem (upd isf (VBool false) st) = Some (pa_type body, old)) by (rewrite mget_upd; exact Hmg).
+      destruct (assign_updm mem x' (upd isf (VBool false) st) _ _ Hm1 Hmg1) as (_ & _ & G2 & _ & _ & _).
+      set (st1 := updm mem x' (upd isf (VBool false) st)) in *.
+      assert (Hf1 : fget isf st1 = Some ("bool", VBool false)) by (unfold st1; rewrite fget_updm; exact G1).
+      assert (Hm2 : fget mem st1 = None) by (unfold st1; rewrite fget_updm; exact Hm1).
+      rewrite (IH st1 (Some x') old Hne1 Hne2 Hne3 Hfb Hmb Hib Hbi Hf1 Hm2 G2 Hn).
+      destruct (first_loop ev (pa_type body) body ps r (Some x')) as [o|f|k] eqn:Er; try reflexivity.
+      rewrite (first_loop_some ev _ body ps r x' o Er). reflexivity.
 Qed.
 
 (* First is the LINQ one: with total predicates, the value is the body on the first element of the filtered
@@ -1221,7 +1514,7 @@ Qed.
 Lemma ex_size_size (e : ex) : ex_size e = size e.
 Proof. induction e; cbn; auto. Qed.
 
-Definition vec_stmts (idiom : string) (cr : collref) (ps : guard) (body : pa) (mem : string) (n : nat) : stmts :=
+Definition vec_stmts (idiom : string) (cr : collref) (ps : guard) (body : bexp) (mem : string) (n : nat) : stmts :=
   SCons (SFetch idiom (vcv_name cr n) (c_ctype cr) (c_bank cr) (fetch_lines idiom (c_ctype cr) (c_bank cr)))
         (one_stmt (tvec_loop cr ps body mem n)).
 Definition first_stmts (idiom : string) (cr : collref) (ps : guard) (body : pa) (line mem : string) (n : nat) : stmts :=
@@ -1244,7 +1537,7 @@ Lemma tcol_split (idiom : string) (c : column) (mem : string) (n : nat) :
 Proof.
   destruct c as [e|cr ps body|cr ps body line]; cbn [tcol cds css col_size].
   - rewrite (te_split idiom e n). rewrite (ex_size_size e). reflexivity.
-  - unfold vec_stmts. replace (n + (2 + gsize ps)) with (S (S n) + gsize ps) by lia. reflexivity.
+  - unfold vec_stmts. replace (n + (2 + gsize ps + nifs body)) with (S (S n) + gsize ps + nifs body) by lia. reflexivity.
   - unfold first_stmts. replace (n + (3 + gsize ps)) with (S (S (S n)) + gsize ps) by lia. reflexivity.
 Qed.
 Fixpoint rds (r : row) (n : nat) : list decl :=
@@ -1273,7 +1566,7 @@ Proof.
   induction r as [|[name c] t IH]; intros nf k n; cbn [trow_sets rsets]; [reflexivity|].
   destruct c as [e|cr ps body|cr ps body line]; cbn [col_size].
   - rewrite (te_split idiom e n), IH. rewrite (ex_size_size e). reflexivity.
-  - replace (n + (2 + gsize ps)) with (S (S n) + gsize ps) by lia. apply IH.
+  - replace (n + (2 + gsize ps + nifs body)) with (S (S n) + gsize ps + nifs body) by lia. apply IH.
   - replace (n + (3 + gsize ps)) with (S (S (S n)) + gsize ps) by lia. apply IH.
 Qed.
 
@@ -1405,6 +1698,9 @@ Proof.
   { destruct (String.eqb mem (bo_name n)) eqn:E; [|reflexivity]. apply String.eqb_eq in E. exfalso. exact (Hshape "bool_op" (S (S n)) eq_refl E). }
   assert (Hib : String.eqb (iv_name n) (bo_name n) = false) by (apply nm_neq; [reflexivity|reflexivity|lia]).
   assert (Hbi : String.eqb (bo_name n) (iv_name n) = false) by (apply nm_neq; [reflexivity|reflexivity|lia]).
+  assert (Hmf : forall j, String.eqb mem (if_name j) = false).
+  { intro j. destruct (String.eqb mem (if_name j)) eqn:E; [|reflexivity]. apply String.eqb_eq in E. exfalso. exact (Hshape "if_else_result" (S (S j)) eq_refl E). }
+  assert (Hifiv : forall j, String.eqb (if_name j) (iv_name n) = false) by (intro j; apply nm_neq_base; [reflexivity|reflexivity|discriminate]).
   destruct c as [e|cr ps body|cr ps body line]; cbn [dcol css col_bases_ok col_declared cvars col_done col_type] in *.
   - pose proof (de_phases ev e) as P. pose proof (te_exec brs ev idiom e n st Hb D) as T.
     destruct (de ev e) as [v0|f|k]; cbn [rbind]; [| |exact I].
@@ -1426,18 +1722,18 @@ Proof.
     { unfold base_ok in Hb. apply andb_prop in Hb as [_ F].
       rewrite Hoth; [exact Hf|]. destruct (String.eqb mem (vcv_name cr n)) eqn:E; [|reflexivity].
       apply String.eqb_eq in E. exfalso. exact (Hshape _ _ F E). }
-    assert (Hm1 : mget mem st1 = Some (vec_type (pa_type body), VVec [])).
+    assert (Hm1 : mget mem st1 = Some (vec_type (btype body), VVec [])).
     { unfold st1. rewrite mget_upd. subst old. exact Hm. }
     destruct cval; cbn [rbind]; try exact I; try reflexivity.
-    destruct (vec_loop ev (pa_type body) body ps l []) as [vs|f|k] eqn:Ev; cbn [rbind]; [| |exact I].
-    + rewrite (loop_push brs ev _ _ mem body ps n l st1 [] Hf1 Hiv Hmb Hib Hbi Hm1); rewrite Ev; [|exact I].
+    destruct (vec_loop ev (btype body) body ps l []) as [vs|f|k] eqn:Ev; cbn [rbind]; [| |exact I].
+    + rewrite (loop_push brs ev _ _ mem body ps n _ l st1 [] Hf1 Hiv Hmb Hmf Hifiv Hib Hbi Hm1); rewrite Ev; [|exact I].
       destruct (assign_updm mem (VVec vs) st1 _ _ Hf1 Hm1) as (_ & _ & G & O & Fr & Rw).
       eexists. split; [reflexivity|]. split; [congruence|]. split; [|split].
       * intros y Hy. rewrite fget_updm. apply Hoth. destruct (String.eqb y (vcv_name cr n)) eqn:E; [|reflexivity].
         apply String.eqb_eq in E. exfalso. apply Hy. left; auto.
       * intros m Hmne. rewrite (O m Hmne). apply mget_upd.
       * split; [eexists; reflexivity|exact G].
-    + rewrite (loop_push brs ev _ _ mem body ps n l st1 [] Hf1 Hiv Hmb Hib Hbi Hm1); rewrite Ev; [reflexivity|exact I].
+    + rewrite (loop_push brs ev _ _ mem body ps n _ l st1 [] Hf1 Hiv Hmb Hmf Hifiv Hib Hbi Hm1); rewrite Ev; [reflexivity|exact I].
   - destruct D as [(tcv & v0 & Dcv) Disf]. unfold first_stmts. rewrite exec_stmts_cons. cbn [exec_stmt].
     destruct (assoc_ss (c_ctype cr, c_bank cr) (ev_colls ev)) as [cval|]; [|reflexivity].
     destruct (assign_upd (vcv_name cr n) cval st tcv v0 Dcv) as (Has & _ & Hcv1 & Hoth & Mem1 & R1).
@@ -1615,7 +1911,7 @@ Proof.
       * exact I.
       * exact Fi2.
     + destruct Dc as [Sh M].
-      destruct (IH nf (S k) (n + (2 + gsize ps)) st vs' Dt) as (st2 & E2 & F2 & R2 & Mo2 & Fi2).
+      destruct (IH nf (S k) (n + (2 + gsize ps + nifs body)) st vs' Dt) as (st2 & E2 & F2 & R2 & Mo2 & Fi2).
       { intros m Hm. apply Sep. right; exact Hm. }
       { exact Nd'. }
       exists st2. split; [exact E2|]. split; [exact F2|]. split; [exact R2|]. split; [|split; [|split]].
@@ -1866,3 +2162,46 @@ Proof.
   intro H. cbn [gpasses]. rewrite (H p (or_introl eq_refl)). cbn [rbind].
   rewrite (bo_rest_total ev v is_and f ps); [|intros q Hq; apply H; right; exact Hq]. reflexivity.
 Qed.
+
+(* ---------- bodies with conditionals: the two-phase reference is the ordinary evaluation ---------- *)
+Lemma dconds_length (ev : event) (v : value) (e : bexp) : forall rs, dconds ev v e = ROk rs -> List.length rs = nifs e.
+Proof.
+  induction e as [a|c a b|op x IHx y IHy]; intros rs H; cbn [dconds nifs] in *.
+  - inversion H. reflexivity.
+  - destruct (dcond ev v c a b); cbn [rbind] in H; try discriminate. inversion H. reflexivity.
+  - destruct (dconds ev v x) as [l1|f|k]; cbn [rbind] in H; try discriminate.
+    destruct (dconds ev v y) as [l2|f|k]; cbn [rbind] in H; try discriminate.
+    inversion H. rewrite app_length, (IHx l1 eq_refl), (IHy l2 eq_refl). reflexivity.
+Qed.
+Lemma dbx_dnat (ev : event) (v : value) (e : bexp) : forall rs, dconds ev v e = ROk rs -> dbx ev v e rs = dnat ev v e.
+Proof.
+  induction e as [a|c a b|op x IHx y IHy]; intros rs H; cbn [dconds dbx dnat] in *.
+  - reflexivity.
+  - destruct (dcond ev v c a b) as [r|f|k]; cbn [rbind] in H; try discriminate. inversion H. reflexivity.
+  - destruct (dconds ev v x) as [l1|f|k] eqn:E1; cbn [rbind] in H; try discriminate.
+    destruct (dconds ev v y) as [l2|f|k] eqn:E2; cbn [rbind] in H; try discriminate.
+    inversion H; subst rs. rewrite <- (dconds_length ev v x l1 E1).
+    rewrite firstn_app, Nat.sub_diag, firstn_all, skipn_app, Nat.sub_diag, skipn_all. cbn [firstn skipn]. rewrite !app_nil_r. cbn [app].
+    rewrite (IHx l1 eq_refl), (IHy l2 eq_refl). reflexivity.
+Qed.
+Lemma dnat_conds (ev : event) (v : value) (e : bexp) : forall x, dnat ev v e = ROk x -> exists rs, dconds ev v e = ROk rs.
+Proof.
+  induction e as [a|c a b|op y IHy z IHz]; intros x H; cbn [dconds dnat] in *.
+  - eauto.
+  - rewrite H. cbn [rbind]. eauto.
+  - destruct (dnat ev v y) as [p|f|k]; cbn [rbind] in H; try discriminate.
+    destruct (dnat ev v z) as [q|f|k]; cbn [rbind] in H; try discriminate.
+    destruct (IHy p eq_refl) as (l1 & E1). destruct (IHz q eq_refl) as (l2 & E2). rewrite E1, E2. cbn [rbind]. eauto.
+Qed.
+(* a body has a value under the two-phase reference iff it has that value under the ordinary recursive evaluation
+   (they can differ only in WHICH fault an undefined body raises) *)
+Theorem db_is_natural (ev : event) (v : value) (e : bexp) (x : value) : db ev v e = ROk x <-> dnat ev v e = ROk x.
+Proof.
+  unfold db. split; intro H.
+  - destruct (dconds ev v e) as [rs|f|k] eqn:E; cbn [rbind] in H; try discriminate. rewrite <- (dbx_dnat ev v e rs E). exact H.
+  - destruct (dnat_conds ev v e x H) as (rs & E). rewrite E. cbn [rbind]. rewrite (dbx_dnat ev v e rs E). exact H.
+Qed.
+(* a conditional evaluates only the arm its test selects *)
+Lemma cond_lazy (ev : event) (v : value) (c : pred) (a b : pa) (t : bool) :
+  dpred ev v c = ROk t -> dnat ev v (BIf c a b) = rbind (if t then dpa ev v a else dpa ev v b) (fun x => match conv "double" x with VUninit => RStuck (KUninit "conditional") | y => ROk y end).
+Proof. intro H. cbn [dnat]. unfold dcond. rewrite H. reflexivity. Qed.
